@@ -423,7 +423,9 @@ pub fn gen_scenario(seed: u64) -> Scenario {
     let clean = rng.chance(2, 3);
     let mut g = wgen::gen_project(&mut rng, clean, false);
     g.project.toml.incremental = rng.chance(4, 5);
-    let slots: Vec<&wgen::Slot> = g.units.iter().flat_map(|u| u.slots.iter()).collect();
+    // Files of a path dependency belong to another project (their own Veryl.toml): they stay on
+    // disk as a dependency but the simulated editor works on the root project's files only.
+    let slots: Vec<&wgen::Slot> = g.units.iter().flat_map(|u| u.slots.iter()).filter(|s| !s.path.starts_with("../")).collect();
     let mut events = vec![];
     let mut open: Vec<String> = vec![];
     let mut exists: BTreeSet<String> = g.project.files.keys().cloned().collect();
